@@ -148,6 +148,13 @@ def nested(tier, base=ALL3, **extra):
                 out += strm(outer, cont, 2, base, nest=inner, ncont=ncont, nin=2, npos=0, p=p, i=1, st=1 if tier != "quick" else 0, sp=1, **extra)
                 if tier != "quick":
                     out += strm(outer, cont, 2, base, nest=inner, ncont=ncont, nin=2, npos=1, p=p, i=2, st=1, sp=0, **extra)
+    # groups with a member that is itself a combinator
+    gbase = tuple(c for c in base if c != "nostd")
+    d = 4 if tier == "quick" else 5
+    for inner, ncont in (("join", "vec"), ("try_join", "tuple"), ("race", "array"), ("race_ok", "vec")):
+        out += grp("fgroup", gbase, keyed=1 if inner == "race" else 0, nest=inner, ncont=ncont, nin=2, init=1, mm=3, ops=2, p=1, st=1, sp=1, dev=d, **extra)
+    for inner, ncont in (("merge", "tuple"), ("zip", "vec"), ("chain", "array")):
+        out += grp("sgroup", gbase, keyed=1 if inner == "zip" else 0, nest=inner, ncont=ncont, nin=2, init=1, mm=3, ops=2, p=1, i=2 if tier != "quick" else 1, st=1, sp=1, dev=d, **extra)
     return out
 
 
